@@ -80,3 +80,49 @@ extern "C" int h_c15() {
   __vp_reached("c15.end");
   return 0;
 }
+// C17: content at / beyond the capacity limits of the format.
+extern "C" int h_c17() {
+  const int kind = __vp_cfg("kind"), v = __vp_cfg("value");
+  ezc3d::c3d c;
+  std::vector<float> in; std::vector<std::string> pn, an; int P = 0, C = 0, F = 0;
+  if (kind == 0) {            // description of v characters (parameter)
+    Param p("LONGDESC", std::string(v, 'd')); p.set(std::vector<int>() = {(int)(short)__vp_sym_u16("iv")}); c.parameter("LIMITS", p);
+  } else if (kind == 1) {     // parameter name of v characters
+    Param p(std::string(v, 'N'), "n"); p.set(std::vector<float>() = {__vp_sym_f32("fv")}); c.parameter("LIMITS", p);
+  } else if (kind == 2) {     // group name of v characters
+    Param p("X", "g"); p.set(std::vector<int>() = {1}); c.parameter(std::string(v, 'G'), p);
+  } else if (kind == 3) {     // one dimension of extent v (ints)
+    std::vector<int> d; for (int i = 0; i < v; ++i) d.push_back((int)(short)__vp_sym_u16("iv"));
+    Param p("WIDE", "w"); p.set(d); c.parameter("LIMITS", p);
+  } else if (kind == 4) {     // string of v characters (first dimension = length)
+    Param p("LONGSTR", "s"); p.set(std::vector<std::string>() = {std::string(v, 's'), std::string("t")}); c.parameter("LIMITS", p);
+  } else if (kind == 5) {     // integer value v (16-bit storage)
+    Param p("INTVAL", "i"); p.set(std::vector<int>() = {v, -v}); c.parameter("LIMITS", p);
+  } else if (kind == 6) {     // v dimensions (each of extent 1)
+    std::vector<size_t> dims(v, 1); Param p("MANYDIMS", "m"); p.set(std::vector<float>() = {__vp_sym_f32("fv")}, dims); c.parameter("LIMITS", p);
+  } else if (kind == 7 || kind == 8) {   // v points / v channels, one frame
+    set_rate(c, "POINT", 100.f); set_rate(c, "ANALOG", 100.f);
+    if (kind == 7) P = v; else C = v;
+    for (int i = 0; i < P; ++i) { std::string n("p"); n += char('a' + i / 26 % 26); n += char('a' + i % 26); n += char('0' + i / 676); pn.push_back(n); c.point(n); }
+    for (int i = 0; i < C; ++i) { std::string n("c"); n += char('a' + i / 26 % 26); n += char('a' + i % 26); n += char('0' + i / 676); an.push_back(n); c.analog(n); }
+    F = 1;
+    Frame fr; Points pts; Analogs ana;
+    for (int i = 0; i < P; ++i) { Point pt; pt.name(pn[i]); float x = __vp_sym_f32("x"); pt.x(x); pt.y(0); pt.z(0); pt.residual(0); pts.point(pt); in.push_back(x); in.push_back(0); in.push_back(0); in.push_back(0); }
+    if (C) { SubFrame sf; for (int i = 0; i < C; ++i) { Channel ch; ch.name(an[i]); float a = __vp_sym_f32("a"); ch.data(a); sf.channel(ch); in.push_back(a); } ana.subframe(sf); }
+    fr.add(pts, ana); c.frame(fr);
+  } else if (kind == 9) {     // many parameters: v groups of one 200-byte description each (parameter section of many blocks)
+    for (int i = 0; i < v; ++i) { std::string g("G"); g += char('A' + i / 26 % 26); g += char('A' + i % 26); g += char('0' + i / 676 % 10); Param p("P", std::string(250, 'x')); p.set(std::vector<int>() = {i}); c.parameter(g, p); }
+  }
+  dump_all(c, "pre", false);
+  int wrote = 0, loaded = 0;
+  try { c.write("out.c3d"); wrote = 1; } catch (std::exception&) { wrote = 0; } 
+  __vp_tag("outcome"); __vp_obs_u64("wrote", wrote);
+  if (wrote) {
+    try { ezc3d::c3d d("out.c3d"); loaded = 1; __vp_obs_u64("loaded", 1); dump_all(d, "post", false); }
+    catch (std::exception&) { __vp_tag("outcome2"); __vp_obs_u64("loaded", 0); }
+  }
+  Built B; B.pn = pn; B.an = an; B.in = in; B.P = P; B.C = C; B.S = 1; B.F = F;
+  emit_inputs(B);
+  __vp_reached("c17.end");
+  return 0;
+}
